@@ -286,7 +286,16 @@ func cmdCheck(args []string) int {
 	if nObl == 0 {
 		broken = append(broken, "no obligations were generated")
 	}
+	degradedRet := map[string]bool{}
+	for _, r := range results {
+		if len(r.G.degraded) > 0 {
+			degradedRet[r.Display] = true
+		}
+	}
 	for fn, n := range retTotal {
+		if degradedRet[fn] {
+			continue // the contract does not fit the function any more: undecided as a whole, not a broken check
+		}
 		if n > 0 && retDead[fn] == n {
 			broken = append(broken, "vacuous: no return of "+fn+" is reachable under its contract and the assumed callee contracts")
 		}
